@@ -411,3 +411,56 @@ def route_answer_discipline(ctx: Ctx, rule: str):
                     if not any(isinstance(s_, ast.Raise) for s_ in ast.walk(h)):
                         ctx.fail(cons + "#swallow", sa.loc(h), "send_answer swallows the "
                                  "not-routable error", rule=rule)
+
+
+def waiting_table_keys(ctx: Ctx, rule: str):
+    """Every outer-level access to Node._peer_waiting_answer is keyed by the host identity of a
+    connection (or by a key obtained from iterating the table itself)."""
+    from ..typesx import expr_type
+    model = ctx.model
+    nc = model.cls("node.node", "Node")
+    T = "self._peer_waiting_answer"
+    ctx.rule(rule, "the pending-answer table is keyed by <connection>.host_identity at every "
+                   "insert, lookup, cleanup and removal", floor=5)
+    for f in nc.all_funcs:
+        if f.name == "__init__":
+            continue
+        loopvars = set()
+        for n in A.walk_no_nested(f.node):
+            if isinstance(n, (ast.For, ast.comprehension)) and T in ast.unparse(n.iter):
+                t = n.target
+                for e in ([t] if isinstance(t, ast.Name) else getattr(t, "elts", [])):
+                    if isinstance(e, ast.Name):
+                        loopvars.add(e.id)
+        # aliases of loop variables
+        for n in A.walk_no_nested(f.node):
+            if isinstance(n, ast.Assign) and isinstance(n.value, ast.Name) and n.value.id in loopvars:
+                for t in n.targets:
+                    if isinstance(t, ast.Name):
+                        loopvars.add(t.id)
+        keys = []
+        for n in A.walk_no_nested(f.node):
+            if isinstance(n, ast.Subscript) and A.dotted(n.value) == T:
+                keys.append((n, n.slice))
+            elif isinstance(n, ast.Compare) and len(n.ops) == 1 and isinstance(n.ops[0], (ast.In, ast.NotIn)) \
+                    and A.dotted(n.comparators[0]) == T:
+                keys.append((n, n.left))
+            elif isinstance(n, ast.Call) and isinstance(n.func, ast.Attribute) \
+                    and A.dotted(n.func.value) == T and n.func.attr in ("get", "pop", "setdefault") and n.args:
+                keys.append((n, n.args[0]))
+        for n, k in keys:
+            cons = f"{f.qualname}:waiting-key"
+            ctx.use(f)
+            ctx.inst(cons, rule=rule, nontrivial=True,
+                     sample={"where": f.loc(n), "key": ast.unparse(k)})
+            if isinstance(k, ast.Name) and k.id in loopvars:
+                continue
+            if isinstance(k, ast.Attribute) and k.attr == "host_identity":
+                t = expr_type(model, f, k.value)
+                if getattr(t, "name", None) == "PeerConnection":
+                    continue
+            ctx.fail(cons, f.loc(n), f"{f.qualname} accesses the pending-answer table under "
+                     f"`{ast.unparse(k)}`; every other site keys it by <connection>.host_identity: "
+                     f"records filed under one key are never found/removed under the other (stale "
+                     f"records survive a disconnect and a late answer is sent on a new connection)",
+                     rule=rule)
